@@ -49,13 +49,30 @@ func Generic(p *Program, x *Exec) *Verdict {
 	if r.Deadlock {
 		return &Verdict{"deadlock", "no call blocks forever", fmt.Sprintf("harness threads never finished; blocked: %v", r.Blocked)}
 	}
-	for _, rc := range r.Races {
+	return nil
+}
+
+// Races is evaluated after the harness oracle: unordered conflicting accesses.
+func Races(p *Program, x *Exec) *Verdict {
+	for _, rc := range x.Res.Races {
 		if p.RaceOK != nil && p.RaceOK(rc) {
 			continue
 		}
 		return &Verdict{"race/" + raceLoc(rc), "concurrent accesses to multi-word values are ordered (a racing map or slice access can crash the process or tear)", fmt.Sprintf("%s race: %s  <->  %s (unordered by happens-before in this schedule)", rc.Kind, rc.First, rc.Second)}
 	}
 	return nil
+}
+
+func verdict(p *Program, x *Exec) *Verdict {
+	if v := Generic(p, x); v != nil {
+		return v
+	}
+	if p.Judge != nil {
+		if v := p.Judge(x); v != nil {
+			return v
+		}
+	}
+	return Races(p, x)
 }
 
 func raceLoc(r vsched.RaceInfo) string {
@@ -105,10 +122,7 @@ func RunProgram(c *fw.Ctx, p *Program) bool {
 		if p.Outcome != nil && len(outcomes) < 2000 {
 			outcomes[p.Outcome()] = true
 		}
-		v := Generic(p, x)
-		if v == nil && p.Judge != nil {
-			v = p.Judge(x)
-		}
+		v := verdict(p, x)
 		if v == nil {
 			return true
 		}
@@ -120,10 +134,7 @@ func RunProgram(c *fw.Ctx, p *Program) bool {
 		// confirm: the same schedule must give the same verdict 5 times
 		ropt := opt
 		_, stable, cerr := Confirm(&ropt, x.Choices, p.Body, func(y *Exec) string {
-			w := Generic(p, y)
-			if w == nil && p.Judge != nil {
-				w = p.Judge(y)
-			}
+			w := verdict(p, y)
 			if w == nil {
 				return ""
 			}
@@ -176,10 +187,7 @@ func ReplayProgram(p *Program, choices []int) (*fw.Violation, error) {
 	if err != nil {
 		return nil, err
 	}
-	v := Generic(p, x)
-	if v == nil && p.Judge != nil {
-		v = p.Judge(x)
-	}
+	v := verdict(p, x)
 	if v == nil {
 		return nil, nil
 	}
